@@ -2757,3 +2757,41 @@ func specStoreSame(pConn *PFCPConn) bool {
 //@   loop 8 invariant C01.mod.l8: connInv(pConn) && specPoolReady(pConn) && pfdInv(pConn.appPFDs) && glen("dp") == old[int](glen("dp"))+1
 //@   loop 9 invariant C03.mod.l9.private: !allocated(session.pdrs) && !allocated(session.fars) && !allocated(session.qers) && !allocated(addPDRs) && !allocated(addFARs) && !allocated(addQERs) && !allocated(delPDRs) && !allocated(delFARs) && !allocated(delQERs) && specOldRulesUntouched() && specStoreSame(pConn)
 //@   loop 9 invariant C01.mod.l9: connInv(pConn) && specPoolReady(pConn) && pfdInv(pConn.appPFDs) && glen("dp") == old[int](glen("dp"))+1
+
+// ---------------------------------------------------------------------------
+// C01 / C02: association release, setup response, dispatch of an incoming datagram
+// ---------------------------------------------------------------------------
+
+func specPFDReqWF(msg message.Message) bool {
+	return implies(typeIs[*message.PFDManagementRequest](msg), specNoNilIE(specPFDReq(msg).ApplicationIDsPFDs))
+}
+
+func specRelReq(msg message.Message) *message.AssociationReleaseRequest {
+	return ptrAt[message.AssociationReleaseRequest](dynRef(msg))
+}
+
+func specRelResp(reply message.Message) *message.AssociationReleaseResponse {
+	return ptrAt[message.AssociationReleaseResponse](dynRef(reply))
+}
+
+//@ func (pConn *PFCPConn) handleAssociationReleaseRequest(msg message.Message) (reply message.Message, err error)
+//@   requires connInv(pConn) && msgWF(msg)
+//@   freshwrites message.AssociationReleaseResponse, message.Header, ie.IE
+//@   ensures C02.rel.type: !typeIs[*message.AssociationReleaseRequest](msg) ==> reply == nil && err != nil
+//@   ensures C02.rel.reply: typeIs[*message.AssociationReleaseRequest](msg) ==> err == nil && typeIs[*message.AssociationReleaseResponse](reply) && dynRef(reply) != 0 && specRelResp(reply).Header != nil && specRelResp(reply).Header.SequenceNumber == specRelReq(msg).Header.SequenceNumber
+
+//@ func (pConn *PFCPConn) handleAssociationSetupResponse(msg message.Message) (err error)
+//@   requires connInv(pConn) && msgWF(msg)
+//@   ensures C01.asres.conn: connInv(pConn)
+
+// specDispatchEnv: what an association has established before it reads datagrams.
+func specDispatchEnv(pConn *PFCPConn) bool {
+	return specHandlerEnv(pConn) && pendingInv(pConn) && pConn.done != nil && pConn.shutdown != nil &&
+		implies(!onceDone(&pConn.shutdownOnce), !chanClosed(pConn.shutdown))
+}
+
+// HandlePFCPMsg (C01: any datagram; C02: at most one message goes out per datagram, none for a
+// datagram that does not parse, for a response-type message, or for an unsupported type).
+//@ func (pConn *PFCPConn) HandlePFCPMsg(buf []byte)
+//@   requires specDispatchEnv(pConn)
+//@   ensures C02.dispatch.atmost: glen("pfcpout") <= old[int](glen("pfcpout"))+1
